@@ -10,6 +10,7 @@ import VerdeModel.Model.CV
 import VerdeModel.Model.Score
 import VerdeModel.Model.Gridder
 import VerdeModel.Model.LinAlg
+import VerdeModel.Model.Kernels
 namespace Verde
 open Val
 
@@ -307,8 +308,34 @@ def opsLinAlg (op : String) (a : List Val) : Option Val :=
       pure (toVal ((powerCombinations (← argAt Nat a 0)).map fun (i, j) => [i, j]))
   | _ => none
 
+def fv (x : Float) : Val := .atom (floatStr x)
+def fAt (a : List Val) (i : Nat) : Option Float := (argAt Rat a i).map ratToFloat
+def fPairs (a : List Val) (i : Nat) : Option (List (Float × Float)) :=
+  (argAt (List (Rat × Rat)) a i).map fun l => l.map fun p => (ratToFloat p.1, ratToFloat p.2)
+def fList (a : List Val) (i : Nat) : Option (List Float) := (argAt (List Rat) a i).map fun l => l.map ratToFloat
+
+def opsKernels (op : String) (a : List Val) : Option Val :=
+  match op with
+  | "k_greens" => do pure (fv (greens (← fAt a 0) (← fAt a 1) (← fAt a 2)))
+  | "k_greens2d" => do
+      let g := greens2d (← fAt a 0) (← fAt a 1) (← fAt a 2) (← fAt a 3)
+      pure (.list [fv g.1, fv g.2.1, fv g.2.2])
+  | "k_checker" => do
+      let amp ← fAt a 0; let we ← fAt a 1; let wn ← fAt a 2
+      pure (.list (((← fList a 3).zip (← fList a 4)).map fun p => fv (checker amp we wn p.1 p.2)))
+  | "k_spline_jac" => do
+      pure (.list ((splineJac (← fPairs a 0) (← fPairs a 1) (← fAt a 2)).map fun r => .list (r.map fv)))
+  | "k_spline_predict" => do
+      pure (.list ((splinePredict (← fPairs a 0) (← fPairs a 1) (← fAt a 2) (← fList a 3)).map fv))
+  | "k_vector_jac" => do
+      pure (.list ((vectorJac (← fPairs a 0) (← fPairs a 1) (← fAt a 2) (← fAt a 3)).map fun r => .list (r.map fv)))
+  | "k_vector_predict" => do
+      let r := vectorPredict (← fPairs a 0) (← fPairs a 1) (← fAt a 2) (← fAt a 3) (← fList a 4) (← fList a 5)
+      pure (.list [.list (r.map fun p => fv p.1), .list (r.map fun p => fv p.2)])
+  | _ => none
+
 def dispatchers : List (String → List Val → Option Val) :=
-  [opsCoords, opsBlocks, opsWindows, opsGrid, opsCV, opsScore, opsGridder, opsLinAlg]
+  [opsCoords, opsBlocks, opsWindows, opsGrid, opsCV, opsScore, opsGridder, opsLinAlg, opsKernels]
 
 def runLine (line : String) : String :=
   match Val.parseLine line with
